@@ -151,7 +151,46 @@ let () = iter_lines (fun line ->
         Printf.printf "ok q=%s\n" (pr_ints (List.map (fun b -> iz (quant_entry (zi b) (zi 100) (force <> "0"))) basic))
       else if List.exists (fun b -> b land 65535 = 0) basic && iz g_ZERO_QUANT_REJECTED = 1 then print_endline "err NoQuantTable"
       else Printf.printf "ok q=%s\n" (pr_ints (List.map (fun b -> b land 65535) basic))
-  | "tjc" :: _ | "tjseq" :: _ | "tn" :: _ -> print_endline "any"
+  | "tjseq" :: _ | "tn" :: _ -> print_endline "any"
+  | [ "tjc"; prec; w; h; pf; _seed ] ->
+      (* the parameters tj3Set accepted, then the checks of tj3Compress8/12/16 + setCompDefaults *)
+      let get = Hashtbl.create 16 in
+      List.iter (fun kv -> match String.split_on_char '=' kv with
+        | [k; v] -> let k = int_of_string k and v = int_of_string v in
+                    if tj3set_accepts (zi 1) (zi k) (zi v) then Hashtbl.replace get k v
+        | _ -> ()) (words (List.nth fs 1));
+      let g id d = (match Hashtbl.find_opt get (iz id) with Some v -> v | None -> d) in
+      let p = { tp_quality = zi (g g_TJPARAM_QUALITY (-1)); tp_subsamp = zi (g g_TJPARAM_SUBSAMP (-1));
+                tp_precision = zi (g g_TJPARAM_PRECISION 8); tp_colorspace = zi (g g_TJPARAM_COLORSPACE (-1));
+                tp_lossless = (g g_TJPARAM_LOSSLESS 0 = 1); tp_psv = zi (g g_TJPARAM_LOSSLESSPSV 1); tp_pt = zi (g g_TJPARAM_LOSSLESSPT 0);
+                tp_progressive = (g g_TJPARAM_PROGRESSIVE 0 = 1); tp_arith = (g g_TJPARAM_ARITHMETIC 0 = 1);
+                tp_optimize = (g g_TJPARAM_OPTIMIZE 0 = 1);
+                tp_restart_blocks = zi (g g_TJPARAM_RESTARTBLOCKS 0); tp_restart_rows = zi (g g_TJPARAM_RESTARTROWS 0) } in
+      let prec = int_of_string prec in
+      let bits = if prec <= 8 then 8 else if prec <= 12 then 12 else 16 in
+      (match tj_compress_setup (zi bits) p (zi (int_of_string w)) (zi (int_of_string h)) (zi (int_of_string pf)) with
+       | Inl _ -> print_endline "rej"
+       | Inr s ->
+           (* later libjpeg checks the model knows: lossy needs precision 8 / 12, lossless + arithmetic is not implemented *)
+           (match select_modules false s.ts_lossless s.ts_arith s.ts_progressive s.ts_prec (zi 1) s.ts_optimize with
+            | Inl _ -> print_endline "rej"
+            | Inr _ -> print_endline "any"))
+  | [ "qs"; quality; force; linear; scale ] ->
+      let (t0, t1) = if linear <> "0" then linear_quality_tables (zi (int_of_string scale)) (force <> "0")
+                     else set_quality_tables (zi (int_of_string quality)) (force <> "0") in
+      let pr l = String.concat "," (List.map (fun x -> string_of_int (iz x)) l) in
+      Printf.printf "ok t0=%s t1=%s\n" (pr t0) (pr t1)
+  | [ "cs"; mode; cs; incomp; lossless ] ->
+      let cs = zi (int_of_string cs) and incomp = zi (int_of_string incomp) in
+      let r = if mode = "0" then (match set_colorspace cs incomp with Inl e -> Inl e | Inr i -> Inr (cs, i))
+              else default_colorspace cs incomp (lossless <> "0") in
+      (match r with
+       | Inl BadJColorspace -> print_endline "err BadJColorspace"
+       | Inl CsComponentCount -> print_endline "err ComponentCount"
+       | Inl BadInColorspace -> print_endline "err BadInColorspace"
+       | Inr (c, i) ->
+           Printf.printf "ok cs=%d nc=%d jfif=%d adobe=%d |%s\n" (iz c) (List.length i.cs_comps) (if i.cs_jfif then 1 else 0) (if i.cs_adobe then 1 else 0)
+             (String.concat "" (List.map (fun k -> Printf.sprintf " %d,%d,%d,%d,%d,%d" (iz k.k_id) (iz k.k_h) (iz k.k_v) (iz k.k_tq) (iz k.k_td) (iz k.k_ta)) i.cs_comps)))
   | [ "wm"; state; len; code ] ->
       let state = int_of_string state and len = int_of_string len in
       let (g, next) = (match state with 0 | 3 -> (CSTATE_START, 0) | 2 -> (CSTATE_SCANNING, 1) | 5 -> (CSTATE_WRCOEFS, 0) | _ -> (CSTATE_SCANNING, 0)) in
